@@ -9,8 +9,8 @@ RULE = ('fault enumeration: for all 48 sizes a random codeword with error patter
         'forced into the data part, the EC part, both, the first and the last codeword of every block, all blocks at once; every single '
         'position of every size with a random wrong value; plus the same damage applied as flipped modules of the rendered symbol through '
         'DataMatrix::decode; non-trivial = at least one error')
-THEOREMS = 'C03_weight0, C03_success_is_codeword, C03_bch_bound, C03_min_distance, C03_unique_within_radius, C03_block_lengths, C03_locator_bound, C03_no_miscorrection'
-ASSUMPTIONS = ['completeness of the Levinson-Durbin / Bjoerck-Pereyra decoder for weights 2..t is not proved (fault enumeration only)']
+THEOREMS = 'C03_weight0, C03_success_is_codeword, C03_bch_bound, C03_min_distance, C03_unique_within_radius, C03_block_lengths, C03_locator_bound, C03_no_miscorrection, C03_corrects, C03_block_corrects'
+ASSUMPTIONS = ['the model of the error decoder (Model/RSDec.v) is tied to the code by this correspondence; the theorem C03_corrects is about the model']
 
 
 def block_positions(sp, b):
